@@ -1,8 +1,11 @@
 (* C13: extraction of the executable dispatch model.  ExtrOcamlBasic only; Z/positive stay extracted inductives. *)
 From Coq Require Import ZArith List.
 From Coq Require Extraction ExtrOcamlBasic.
-From BM Require Import Model.BlasC13 Model.BlasC13Ref Model.BlasC13Crit Model.BlasC13L1 Model.BlasC13L1Ref Model.BlasC13L3 Model.BlasC13L3Crit Model.BlasC13TrsmRef Model.BlasC13Code.
+From BM Require Import Model.BlasC13 Model.BlasC13Ref Model.BlasC13Crit Model.BlasC13L1 Model.BlasC13L1Ref Model.BlasC13L3 Model.BlasC13L3Crit Model.BlasC13TrsmRef Model.BlasC13Code Model.BlasC13Expr.
 Extraction Language OCaml.
 Extraction "modelc13.ml"
   gemm_n gemm_inplace gemv_n gemv_inplace gemm_info gemv_info gemm_legal gemv_legal gemm_asserts gemv_asserts
-  wf_matb shapes_conformb conj_mat gemm_lazy gemv_lazy fresh_mat gemm_implements_b gemv_implements_b dot_n_model l1_xy l1_x gemm_site_cond gemv_site_cond syrk_model herk_model trsm_model rk_info trsm_info rk_legal trsm_legal syrk_dispatch herk_dispatch trsm_dispatch hermitized rk_implements_b final_code vfinal_code axpy_call copy_call swap_call scal_call red_call trsm_implements_b rk_site_cond.
+  wf_matb shapes_conformb conj_mat gemm_lazy gemv_lazy fresh_mat gemm_implements_b gemv_implements_b dot_n_model l1_xy l1_x gemm_site_cond gemv_site_cond syrk_model herk_model trsm_model rk_info trsm_info rk_legal trsm_legal syrk_dispatch herk_dispatch trsm_dispatch hermitized rk_implements_b final_code vfinal_code axpy_call copy_call swap_call scal_call red_call trsm_implements_b rk_site_cond
+  decos_mat decos_vec resolve vresolve geval gstmt_out gcompile veval vstmt_out vcompile aexpr_scale aexpr_vec astmt_alpha astmt_call
+  dexpr_call dexpr_post tstmt_args tstmt_model hstmt_passes hstmt_out l1stmt_call l1stmt_scalar
+  gI_mul gI_neg gplan_code vplan_code.
